@@ -505,7 +505,7 @@ func (h *Harness) Crash(n *Node, tag string) string {
 	}
 	h.S.KillNode(n.Name)
 	n.Dead = true
-	h.S.stats["crash"]++
+	h.S.stat("crash")
 	return img
 }
 
